@@ -1,3 +1,7 @@
 import MidoProofs.SrcTie.Tok
+import MidoProofs.SrcTie.Sockets
 #print axioms Mido.src_feed_byte
 #print axioms Mido.src_feed
+#print axioms Mido.src_split
+#print axioms Mido.src_parse_address
+#print axioms Mido.src_parse_format
